@@ -382,6 +382,9 @@ func (sn *Node) UpdateForeignAllocation(alloc *Allocation) *Allocation {
 	if existing == nil {
 		log.Log(log.SchedNode).Debug("unknown allocation to update",
 			zap.String("allocationKey", key))
+		// the allocation is added to the node: it must be counted as occupied like any other foreign allocation
+		sn.occupiedResource = resources.Add(sn.occupiedResource, alloc.GetAllocatedResource())
+		sn.refreshAvailableResource()
 		return nil
 	}
 
